@@ -147,6 +147,13 @@ func NewPositionRange(lines []string, val *yaml.Node, minColumn int) (offsets Po
 	}
 
 END:
+	if len(offsets) == 0 {
+		// Nothing in the file spells this value (for example a quoted scalar starting with an escape
+		// sequence), point at the node itself so the position is never empty.
+		return PositionRanges{
+			{Line: val.Line, FirstColumn: val.Column, LastColumn: val.Column},
+		}
+	}
 	return offsets
 }
 
